@@ -51,6 +51,16 @@ def mixed_c01(tier):
             out.append(dict({'network': net, 'streams': 3 + rep % 3, 'pushfirst': 1, 'msgs': 4, 'unary': 8, 'end': 'close', 'after': 8}, **extra))
     return out
 
+def st_c19(tier, sd):
+    out = []
+    for net, codec, hdr, extra in (('unix', 'alias', '', {}), ('inproc', 'code', 'code', {}), ('tcp', 'pb', '', {}), ('frag', 'alias', '', {'frag': 11}),
+                                   ('unix', 'alias', '', {'clidirect': True}), ('unix', 'alias', '', {'clipipe': True, 'srvpipe': True})):
+        c = {'network': net, 'codec': codec, 'header': hdr, 'conns': 2, 'callers': 3, 'calls': 80 if tier == 'quick' else 400, 'sizes': [0, 1, 16, 17, 49, 64, 600, 1000, 5000],
+             'failevery': 7, 'retain': True, 'forms': 'ctx,ctx,call', 'bufsize': 0}
+        c.update(extra)
+        out.append(c)
+    return out
+
 def st_c04(tier, sd):
     cfgs = st_c01(tier, sd)
     return cfgs[:8] if tier == 'quick' else cfgs
@@ -66,7 +76,7 @@ def st_c01(tier, sd):
             if mode.get('poll') and net not in ('frag',):
                 continue
             c = {'network': net, 'codec': codec, 'header': hdr, 'conns': 3, 'callers': 4, 'calls': n, 'sizes': sizes,
-                 'failevery': 9, 'missevery': 11, 'frag': 9 if net == 'frag' else 0, 'bufsize': [0, 512, 70000][len(out) % 3], 'forms': 'call,call,go,ctx,rt'}
+                 'failevery': 9, 'missevery': 11, 'cached': 8, 'frag': 9 if net == 'frag' else 0, 'bufsize': [0, 512, 70000][len(out) % 3], 'forms': 'call,call,go,ctx,rt'}
             c.update(mode)
             out.append(c)
     return out
@@ -120,6 +130,7 @@ CONN_PLANS = {
                  ('rmfin_dupP', ['RemoveAtFinish'], C({1, 2, 5}, M(cp=True, sp=True), dup=1)),
                  ('sweepskip', ['SweepSkips'], C({1, 2, 3}, M(), cut=1))],
         'sims': FAULT_SIMS,
+        'also_transport': 'C14',
     },
     'C03': {
         'own': 'C03',
@@ -162,7 +173,9 @@ CONN_PLANS = {
         'devs': [('errinline', ['ErrorInline'], C({1, 2, 10}, M(cp=True, sp=True))),
                  ('lookupinline', ['LookupFailInline'], C({1, 2, 6}, M(cp=True, sp=True))),
                  ('unordfin', ['UnorderedFinish'], C({1, 2, 5}, M(cp=True, sp=True))),
-                 ('unordexec', ['UnorderedExec'], C({1, 2, 5}, M(cp=True, sp=True)))],
+                 ('unordexec', ['UnorderedExec'], C({1, 2, 5}, M(cp=True, sp=True))),
+                 ('eofqueued', ['EofRunsQueued'], C({1, 2, 5}, M(cp=True, sp=True), cut=1)),
+                 ('eofqueuedD', ['EofRunsQueued'], C({1, 2, 5}, M(sp=True, sd=True), cut=1))],
         'sims': [('pp', C({1, 2, 5, 6, 9, 10}, M(cp=True, sp=True), dup=1)),
                  ('pd', C({1, 2, 5, 6, 9, 10}, M(cp=True, sp=True, cd=True, sd=True))),
                  ('ps', C({1, 2, 5, 6, 9, 10}, M(cp=True, sp=True, sd=True))),
@@ -172,6 +185,7 @@ CONN_PLANS = {
     },
     'C06': {
         'own': 'C06',
+        'mixed': mixed_c01,
         'models': {'quick': [('u3e', C({1, 2, 6}, M(), mfail=1, dup=1)),
                              ('u3eP', C({1, 2, 6}, M(cp=True, sp=True), mfail=1))],
                    'thorough': [('u4e', C({1, 2, 5, 6}, M(), mfail=1, dup=1, unk=1)),
@@ -192,6 +206,7 @@ CONN_PLANS = {
         'sims': [('np', C({1, 2, 4, 8}, M(), dup=1, ctx=None)),
                  ('pp', C({1, 2, 4, 8}, M(cp=True, sp=True), dup=1, ctx=None)),
                  ('dd', C({1, 2, 4, 8}, M(cd=True, sd=True), cut=1, ctx=None))],
+        'stress': st_c19,
         'also_transport': 'C14',
     },
 }
@@ -450,9 +465,16 @@ def trans_core(pid, plan, tier, replay_file=None, models=True):
         for j, (tag, c) in enumerate(plan['sims']):
             ss, res = tf.sim_schedules('%s_%s' % (pid, tag), c, nsim, 45, sd * 1000 + j)
             schedules.extend(ss)
+        # a pooled connection that ends with a read error other than EOF (no call in flight / a call in flight), then calls again:
+        # behaviours of the model (Get Register Return Drop Get ...) run with the non-EOF flavour of Drop
+        G = lambda k: [{'a': 'Get', 'k': k, 'addr': 'a'}, {'a': 'Register', 'k': k}]
+        R = lambda k: [{'a': 'Return', 'k': k}]
+        icfg = {'Addrs': ['a'], 'MaxConns': 1, 'MaxIdle': 1, 'KeepAlive': 1, 'IdleTO': 2, 'UnitMs': 50, 'IOErr': True, 'Forms': ['call']}
+        schedules.append({'name': 'ioerr:idle', 'cfg': icfg, 'steps': G(1) + R(1) + [{'a': 'Drop', 'k': 1}] + G(1) + R(1) + G(1) + R(1) + G(1) + R(1)})
+        schedules.append({'name': 'ioerr:inflight', 'cfg': icfg, 'steps': G(1) + [{'a': 'Drop', 'k': 1}] + R(1) + G(1) + R(1) + G(1) + R(1) + G(1) + R(1)})
         if plan.get('bursts'):
             # concurrent callers racing for the pool (no gates): limits and their normalisation
-            for j, (mc, mi, raw) in enumerate([(2, 1, None), (1, 1, (0, 0)), (1, 1, (-1, 5)), (2, 2, (2, 5)), (3, 2, None), (1, 1, None)]):
+            for j, (mc, mi, raw) in enumerate([(2, 1, None), (1, 1, (0, 0)), (1, 1, (-1, 5)), (2, 2, (2, 5)), (3, 2, None), (1, 1, None), (3, 1, (3, -1)), (2, 1, (2, -3))]):
                 cfg = {'Addrs': ['a'], 'MaxConns': mc, 'MaxIdle': mi, 'KeepAlive': 1, 'IdleTO': 2, 'UnitMs': 6}
                 if raw:
                     cfg.update({'UseRaw': True, 'RawMaxConns': raw[0], 'RawMaxIdle': raw[1]})
@@ -658,6 +680,8 @@ def stream_scenarios(tier):
             for mode in ({}, {'srvpipe': True}, {'srvdirect': True}):
                 out.append(dict({'network': net, 'poll': poll, 'readers': readers, 'streams': 1, 'msgs': 2, 'end': 'close', 'burstclose': 12 if tier == 'quick' else 60,
                                  'frag': 0}, **mode))
+            out.append({'network': net, 'poll': poll, 'readers': readers, 'streams': 2, 'msgs': 2, 'end': 'drop', 'burstclose': 6, 'frag': 0})
+            out.append({'network': net, 'poll': poll, 'readers': readers, 'streams': 3, 'pushfirst': 1, 'msgs': 3, 'end': 'half', 'frag': 0})
     return out
 
 STREAM_PLANS = {
@@ -679,6 +703,7 @@ STREAM_PLANS = {
                    'thorough': [('s2', SC(streams=(1, 2), push=1, send=1)), ('s2p', SC(streams=(1, 2), push=1, send=1, poll=True))]},
         'live': {'quick': [('l1', SC(streams=(1,), push=1, send=1))], 'thorough': [('l2', SC(streams=(1, 2), push=1, send=0))]},
         'devs': [('nosweep', ['NoClientSweep'], SC(streams=(1,), push=1, send=0)),
+                 ('wfaildrop', ['WriteFailDropsStream'], SC(streams=(1, 2), push=0, send=1, bad=1)),
                  ('closewrong', ['CloseWrongEntry'], SC(streams=(1, 2), push=0, send=0, cut=False)),
                  ('pollnosweep', ['PollNoStreamSweep'], SC(streams=(1,), push=0, send=0, poll=True))],
         'sims': [('s2', SC(streams=(1, 2), push=2, send=2, bad=1)), ('s3', SC(streams=(1, 2, 3), push=1, send=1, bad=1)),
@@ -1041,7 +1066,23 @@ def c12_check(pid, tier, replay_file=None):
                         json.dumps({k: v for k, v in w.items() if k not in ('sizes', 'name')}), len(major)), 'stress_config': w, 'schedule': None, 'finding': {'kind': 'transcript'}, 'trace': []})
     if skipped and len(skipped) > len(work) // 3:
         raise Machinery('too many configurations could not be hosted: ' + '; '.join(skipped[:5]))
-    cov = {'evaluations': len(results), 'distinct_nontrivial': len(results) - len(skipped), 'exhaustive': tier != 'quick' and len(sel) >= len(cfgs),
+    # streams under the configurations that matter to them: body codec (aliasing or not) x server modes; what each end read is kept and re-checked
+    scs = []
+    for j, (net, codec, extra) in enumerate((('unix', 'alias', {}), ('unix', '', {}), ('frag', 'alias', {'frag': 7}), ('unix', 'alias', {'srvpipe': True}),
+                                             ('unix', 'alias', {'srvdirect': True, 'clidirect': True}), ('frag', '', {'poll': True, 'readers': 2, 'frag': 9}))):
+        scs.append(dict({'name': 'C12-s%d' % j, 'network': net, 'codec': codec, 'streams': 2, 'pushfirst': j % 3, 'msgs': 12, 'unary': 6, 'end': 'close', 'retain': True,
+                         'seed': 77 + seed()}, **extra))
+    sres, scr = cf.run_stress(scs, pid + 's', cmd='sstress')
+    for cr in scr:
+        first = cr['panic'].splitlines()[0] if cr['panic'] else 'crash'
+        violations.append({'property': pid, 'signature': 'crash:stream:' + first[:60], 'summary': 'C12: the process crashed in a stream scenario under %s: %s' % (json.dumps(cr['config']), first),
+                           'stress_config': cr['config'], 'schedule': None, 'finding': {'kind': 'crash', 'panic': cr['panic']}, 'trace': []})
+    for r in sres:
+        for fl in (r.get('failures') or [])[:2]:
+            w = [x for x in scs if x['name'] == r['name']]
+            violations.append({'property': pid, 'signature': 'config:stream:' + ' '.join(fl.split()[:6]), 'summary': 'C12: stream scenario under configuration %s: %s' % (
+                json.dumps({k: v for k, v in (w[0] if w else {}).items() if k != 'name'}), fl), 'stress_config': w[0] if w else None, 'schedule': None, 'finding': {'kind': 'config-stream', 'failure': fl}, 'trace': []})
+    cov = {'evaluations': len(results) + len(sres), 'distinct_nontrivial': len(results) + len(sres) - len(skipped), 'exhaustive': tier != 'quick' and len(sel) >= len(cfgs),
            'states': res['distinct'], 'transitions': res['states'], 'configurations_in_space': len(cfgs), 'calls': sum(r.get('calls', 0) for r in results),
            'skipped': skipped[:10],
            'rule': ('configurations are the states TLC enumerates from spec/Config.tla (network x TLS x header encoder x body codec x name-or-constructor x poll x server pipelining x server direct I/O x '
